@@ -43,6 +43,31 @@ def nb_facts(d):
     return z3.And(z3.Implies(scalar, z3.Not(has_binary(d))), z3.Implies(smt.kind(d) == smt.K_BYTES, has_binary(d)))
 
 
+def _nb_box_hook(eng, ctx, v, what, content):
+    """nb (has_binary) of a container built by the code under verification is the disjunction over its items"""
+    if what == 'dict':
+        items = [eng.to_v(ctx, it) for it in content.values()]
+        for it in items:
+            ctx.assume(nb_facts(it))
+        ctx.assume(has_binary(v) == (z3.Or(*[has_binary(it) for it in items]) if items else z3.BoolVal(False)))
+    else:
+        fl = content.fixed_len()
+        if fl is not None:
+            items = [eng.to_v(ctx, it) for it in content.items()]
+            for it in items:
+                ctx.assume(nb_facts(it))
+            ctx.assume(has_binary(v) == (z3.Or(*[has_binary(it) for it in items]) if items else z3.BoolVal(False)))
+        else:
+            p = z3.Int('nb_p')
+            n = content.length()
+            ctx.assume(has_binary(v) == z3.Exists([p], z3.And(p >= 0, p < n, has_binary(eng.seq_at(ctx, content, p)))))
+
+
+from pyvc import engine as _engine
+if _nb_box_hook not in _engine.BOX_HOOKS:
+    _engine.BOX_HOOKS.append(_nb_box_hook)
+
+
 def data_is_binary_summary():
     def res(c):
         c.ctx.assume(nb_facts(c.a.data))
